@@ -302,6 +302,15 @@ func checkC11(c *Ctx, r *Report) {
 		installedRecognisers(c, r, "R11.5", crc, nil)
 		r.floor("R11.5", 2)
 	}
+	// R11.8: field extraction asks the reply itself: IsCoilSet is invoked on the response handed to
+	// extractCoilFields with (request start, field address), not on an adapter in between whose
+	// answers (cached, defaulted) could differ — in particular for out-of-range addresses (C05 R5.2)
+	{
+		tmp := newReport(r.Prop, r.Tier)
+		c05Plumbing(c, tmp)
+		r.instance("R11.8", copyItems(tmp, r, "R5.2", "R11.8", "IsCoilSet"))
+		r.floor("R11.8", 2)
+	}
 	// R11.6: the payload a lookup reads is the reply's own: do() hands back a fresh copy of a
 	// call-local buffer, so a later exchange cannot change an earlier reply's coils
 	clientLoopItems(c, r, "R7.2", "R11.6", "the frame handed on is a copy of received[0:total]")
